@@ -38,11 +38,12 @@ var c05Patterns = []string{
 	`\b\w+\b`, `\b(\w+)\b\s+\b(\w+)\b`, `(?:a|b)*abb`, `[^a]*a[^a]*b`, `a.*b.*c`, `(\d+)-(\d+)`, `\d+\.\d+\.\d+\.\d+`, `^.*?foo`, `ab*c|abd*`, `(?i)hello|world|foo|bar`,
 	`[ab]*a[ab]{12}`, `(?s).*a.{10}b`, `(a?){20}a{20}`, `(?:x|xy|xyz)+w`, `.*[^a]a$`, `.+@.+\..+`, `\s*\S+\s*=\s*\S+`, `(?:foo|bar|baz)+qux`, `[a-z]+ing\b`,
 	`[a-c]+d|[a-c]+e`, `(?i)[a-z]+z9`, `x*y*z*w`, `(ab)*(ab)*(ab)*c`, `\pL+\d`, `[α-ω]+x`, `(é|e)+f`, `.*é.*日`, `a{2,}b{2,}c`, `(?:\w+\.)+com`, `^(?:[a-z0-9]+-)*[a-z0-9]+$`,
+	`[0-9][a-z.]+\.txt`, `\d\w+\.com`, `[A-Z][a-z ]+\.`, `[0-9][a-z ]*keyword[a-z ]*[0-9]`, `(?m)^[0-9].*\.php$`, `#[a-z]+(?:foo|bar|baz)`, `\d+\.\d+`, `[0-9]+x[0-9]+`,
 	`error|warning|fatal|panic|critical|alert|emerg|notice|debug|trace|info`, `[0-9a-f]{8}-[0-9a-f]{4}`, `(?m)^\s*#.*$`, `(?m)^(\w+)=(.*)$`, `"(?:[^"\\]|\\.)*"`, `/\*.*?\*/`, `<[^>]+>`,
 }
 
 func init() {
-	register(&Prop{ID: "C05", N: 6000, Quick: 260, Build: "cover", StallSec: 300, Workers: 12,
+	register(&Prop{ID: "C05", N: 6000, Quick: 60, QuickFixed: uint64(64*8 + 16), Build: "cover", StallSec: 300, Workers: 12,
 		Assume: []string{"work = number of executed coverage units (Go basic blocks, -covermode=atomic) of all coregex packages between ClearCounters and WriteCounters around ONE call: a deterministic proxy for time; assembly kernels are not counted (the Go loops that call them are)", "the existential constant of the property is fixed for monitoring: K = 400 units per (NFA state x haystack byte) plus a start-up term 200000 + 4000*states; the repaired tree's largest observed constant is recorded in the evidence", "a finite ladder cannot decide 'for all n': the rule reports sustained super-linear growth over 16x size or a bound excess up to 64 KiB"},
 		Rule:   "case i = (pattern, haystack family): patterns are 56 adversarial shapes (nested quantifiers, adjacent overlapping classes, reverse-suffix/inner/multiline, look-around, captures, alternations) and G(D,i) patterns (exemplars of all strategies and mutants); families: one-symbol run, two-symbol alternation, near-match (language sample without its last byte, repeated), sample repeated, longest pattern literal repeated without its context, seeded random walk over the pattern alphabet, digit runs, sample-per-line; ladder n = 64,128,...,65536 (quick: ...,8192); at every rung Match, FindIndex and FindSubmatchIndex are each called once on a warmed value, plus a cold FindIndex at 4096; violation if W > K*states*(n+1)+C0 at any rung, if the last four doubling ratios all exceed 2.4, or if a single call passes 3e8 units (the call is abandoned, the worker restarted); compile: limit families p_k (k up to 512) must satisfy W(Compile) <= 60*(len(p)+states)^2+3e6; one evaluation = one metered call; distinct_nontrivial = distinct (pattern, family, API, rung) with W above the 1e5 noise floor",
 		Init: func(w *W) {
@@ -55,13 +56,26 @@ func init() {
 		Run: runC05})
 }
 
-func c05Pattern(i uint64) (string, string) {
-	if i%3 != 2 {
-		k := int(i/3*2+i%3) % (len(c05Patterns) * 1)
-		return c05Patterns[k%len(c05Patterns)], "adversarial"
+// Index space: [0, P*F) is the fixed grid adversarial pattern x family (part of every quick run);
+// [P*F, P*F+C) are the compile ladders; beyond that seeded variants of the grid (other alphabet symbols,
+// other samples) alternate with G(D,i) patterns.
+func c05Grid() uint64 { return uint64(len(c05Patterns) * len(c05Families)) }
+
+func c05Case(i uint64) (pattern, src, fam string, compile bool) {
+	P, F := uint64(len(c05Patterns)), uint64(len(c05Families))
+	switch {
+	case i < P*F:
+		return c05Patterns[i%P], "adversarial-grid", c05Families[i/P], false
+	case i < P*F+uint64(len(c05CompileFamilies)):
+		return "", "compile", "", true
+	}
+	j := i - P*F - uint64(len(c05CompileFamilies))
+	if j%3 != 2 {
+		k := j / 3 * 2 + j%3
+		return c05Patterns[k%P], "adversarial-variant", c05Families[(k/P)%F], false
 	}
 	c := gen.D(i)
-	return c.Pattern, "D/" + c.Family
+	return c.Pattern, "D/" + c.Family, c05Families[(j/3)%F], false
 }
 
 // longestLiteral returns the longest literal run of the AST.
@@ -156,11 +170,11 @@ func runC05(w *W, i uint64) {
 	if w.aux == nil {
 		return
 	}
-	if i%10 == 9 {
-		runC05Compile(w, i)
+	p, src, fam, isCompile := c05Case(i)
+	if isCompile {
+		runC05Compile(w, i-c05Grid())
 		return
 	}
-	p, src := c05Pattern(i)
 	if _, err := regexp.Compile(p); err != nil {
 		return
 	}
@@ -179,7 +193,6 @@ func runC05(w *W, i uint64) {
 		return
 	}
 	r := gen.Rng("C05", i)
-	fam := c05Families[int(i/7)%len(c05Families)]
 	region := gen.ASCII
 	if i%5 == 4 {
 		region = gen.UTF8
@@ -330,7 +343,7 @@ var c05CompileFamilies = []func(k int) string{
 }
 
 func runC05Compile(w *W, i uint64) {
-	f := c05CompileFamilies[int(i/10)%len(c05CompileFamilies)]
+	f := c05CompileFamilies[int(i)%len(c05CompileFamilies)]
 	var rows []string
 	evals := 0
 	maxK := 512
